@@ -111,7 +111,9 @@ func e2eTrack(c *e2eCtx, decoys bool) error {
 		if s.runDir != "" {
 			os.Remove(s.runDir)
 		}
-		os.RemoveAll(s.dir)
+		if os.Getenv("VERIF_KEEP") == "" {
+			os.RemoveAll(s.dir)
+		}
 	})
 	return nil
 }
@@ -382,7 +384,13 @@ func (c *e2eCtx) trackAndJudge(s *scenario, decoys bool, r *rand.Rand) {
 			}
 		}
 		if !userFiles {
-			c.violate("C06", "tracking package directory still exists after clean", rp(nil))
+			var names []string
+			if es, err := os.ReadDir(filepath.Join(s.dir, s.cfg.PkgPath)); err == nil {
+				for _, e := range es {
+					names = append(names, e.Name())
+				}
+			}
+			c.violate("C06", fmt.Sprintf("tracking package directory still exists after clean (entries: %v)", names), rp(map[string]any{"clean_stderr": tail(cl.Stderr, 1200), "clean_stdout": tail(cl.Stdout, 600)}))
 		}
 	}
 	if lf, ld := proj.Leftovers(s.dir, s.newTree, s.cfg.PkgPath, "goat.yaml"); len(lf)+len(ld) > 0 {
